@@ -14,7 +14,7 @@ import numpy as np
 from .. import seams, world as W
 from ..core import exc_brief, exc_site
 from ..prng import shuffled, weighted
-from ..realise import Names, build_bn, to_np
+from ..realise import Names, build_bn, build_mn, to_np
 from ..refmodel import RefJoint, close
 
 PROP = "C07"
@@ -24,6 +24,16 @@ DELTA = 1e-12
 def generate(streams, tier):
     big = tier == "thorough"
     r = streams.s("kind")
+    if r.random() < 0.12:
+        # Gibbs kernels of a Markov network (potentials on any scale, several factors per variable)
+        world = W.gen_mn(streams, max_n=4, min_n=1, max_card=3, max_joint=81, connected=r.random() < 0.7, label_mode=r.choice(["str", "short"]),
+                         dup_rate=r.choice([0.0, 0.4]), scale_rate=0.4)
+        ri = streams.s("insertion")
+        rw = streams.s("workload")
+        ops = [{"op": weighted(rw, [("gibbs_kernel", 3), ("gibbs_sample", 1)]), "seed": rw.randrange(2**31), "size": rw.choice([1, 2, 7, 50]),
+                "include_latents": False, "perturb": [rw.randrange(2**31) for _ in range(2)]} for _ in range(rw.randint(1, 3))]
+        return {"kind": "mn", "world": world, "config": {"factor_order": shuffled(ri, range(len(world["factors"]))), "edge_order": shuffled(ri, world["edges"])},
+                "shared": False, "ops": ops}
     world = W.gen_bn(streams, max_n=5, min_n=1, max_card=3, max_parents=3, max_joint=512, label_mode=r.choice(["str", "str", "short", "int"]),
                      state_modes=[("default", 2), ("str", 3), ("int_sorted", 1), ("int", 2)])
     n = world["n"]
@@ -100,6 +110,8 @@ def generate(streams, tier):
 
 def describe(case):
     w = case["world"]
+    if case.get("kind") == "mn":
+        return {"kind": "mn", "n": w["n"], "card": w["card"], "labels": w["labels"], "factors": [f["scope"] for f in w["factors"]], "ops": [o["op"] for o in case["ops"]]}
     return {"n": w["n"], "card": w["card"], "parents": w["parents"], "labels": w["labels"], "latents": w["latents"], "shared": case["shared"],
             "ops": [{k: v for k, v in op.items() if k != "perturb"} for op in case["ops"]]}
 
@@ -130,10 +142,54 @@ def frame_rows(df, names, cols):
     return out
 
 
+def _execute_mn(case, ctx):
+    from pgmpy.sampling import GibbsSampling
+
+    world = case["world"]
+    names = Names(world)
+    ref = RefJoint.from_factors(world["card"], world["factors"])
+    ctx.fault("relabel")
+    ctx.fault("insertion_permute")
+    ctx.sig_order("labels", [names.lab2idx[x] for x in set(names.labels)])
+    ctx.probe("markov_network_gibbs")
+    try:
+        model = build_mn(world, names, factor_order=case["config"]["factor_order"], edge_order=case["config"]["edge_order"])
+    except Exception as e:
+        ctx.fail("succeeds", f"{PROP}:raise:build_mn:{type(e).__name__}:{exc_site(e)}", exc_brief(e))
+        return
+    for i, op in enumerate(case["ops"]):
+        ctx.step_no = i
+        ctx.steps += 1
+        ctx.event(op["op"], op["size"], op["seed"])
+        try:
+            if op["op"] == "gibbs_kernel":
+                g = GibbsSampling(model)
+                ctx.checked += 1
+                order = [names.lab2idx[x] for x in g.variables.tolist()]
+                _gibbs_kernel(ctx, world, names, ref, g, order)
+            elif op["op"] == "gibbs_sample":
+                if any(x == 0.0 for f in world["factors"] for x in f["values"]):
+                    ctx.probe("gibbs_sample_skipped")
+                    continue
+                size = min(op["size"], 50)
+                a = GibbsSampling(model).sample(size=size, seed=op["seed"])
+                seams.rng_perturb(random.Random(op["perturb"][1]), ctx)
+                b = GibbsSampling(model).sample(size=size, seed=op["seed"])
+                ctx.checked += 1
+                if not a.equals(b):
+                    ctx.fail("reproducible", f"{PROP}:not_reproducible:gibbs", {"size": size, "seed": op["seed"], "model": "mn"})
+                if len(a) != size:
+                    ctx.fail("row_count", f"{PROP}:row_count:gibbs", {"got": len(a), "want": size})
+        except Exception as e:
+            ctx.fail("succeeds", f"{PROP}:raise:{op['op']}:{type(e).__name__}:{exc_site(e)}", {"exc": exc_brief(e), "model": "mn"})
+
+
 def execute(case, ctx):
     from pgmpy.factors.discrete import State
     from pgmpy.sampling import BayesianModelSampling, GibbsSampling
 
+    if case.get("kind") == "mn":
+        return _execute_mn(case, ctx)
     world, config = case["world"], case["config"]
     names = Names(world)
     n = world["n"]
@@ -421,6 +477,20 @@ def shrink_candidates(case):
     from . import c01
 
     w = case["world"]
+    if case.get("kind") == "mn":
+        if any(st is not None for st in w["states"]):
+            c = copy.deepcopy(case)
+            c["world"]["states"] = [None] * w["n"]
+            yield c
+        for i in range(len(w["factors"])):
+            # dropping a factor keeps the model valid as long as every variable is still covered
+            rest = [f for j, f in enumerate(w["factors"]) if j != i]
+            if all(any(v in f["scope"] for f in rest) for v in range(w["n"])):
+                c = copy.deepcopy(case)
+                c["world"]["factors"] = rest
+                c["config"]["factor_order"] = list(range(len(rest)))
+                yield c
+        return
     if case["shared"]:
         out = copy.deepcopy(case)
         out["shared"] = False
